@@ -92,7 +92,7 @@ def check(prop: str, tier: str) -> int:
     unresolved = [o for o in obs if o.state == "unresolved"]
     known_obs = [o for o in obs if o.state == "known"]
 
-    out_dir = os.path.join(VERIF, "out", prop + ("_" + str(os.getpid()) if os.environ.get("SA_NO_EVIDENCE") else ""))
+    out_dir = os.path.join(VERIF, "out", "_eval", f"{prop}_{os.getpid()}") if os.environ.get("SA_NO_EVIDENCE") else os.path.join(VERIF, "out", prop)
     os.makedirs(out_dir, exist_ok=True)
     for f in os.listdir(out_dir):
         if f.endswith(".json"):
